@@ -385,7 +385,7 @@ def corrupt(line):
         if o["members"]:
             o["members"] = o["members"][:-1]
         else:
-            o["msgrt"] = False
+            o["top"] = o["top"] + ["level"]        # a forged second level member
     elif fmt == "logfmt":
         if o["pairs"]:
             o["pairs"] = o["pairs"][:-1]
@@ -581,13 +581,13 @@ def run_format(ctx, fmt, replay):
     vocab, trees = model_check(ctx, fmt)
     # ---- production-mode records
     g = Gen(fmt, ctx.seed * 100003 + 11)
-    gen_cells(g, vocab, 2 if quick else 8)
+    gen_cells(g, vocab, 2 if quick else 12)
     gen_kinds(g, vocab, 12 if quick else 48)
     gen_trees(g, trees)
     gen_grid(g, quick)
     known_feats = parse_known(ctx, fmt, vocab)
-    gen_big(g, vocab, 120 if quick else 2500, clean_of=None)
-    gen_big(g, vocab, 120 if quick else 2500, clean_of=known_feats)
+    gen_big(g, vocab, 120 if quick else 8000, clean_of=None)
+    gen_big(g, vocab, 120 if quick else 8000, clean_of=known_feats)
     # ---- go-test-mode records (error dump after the record; C05/C06 make allowances only there)
     gt = Gen(fmt, ctx.seed * 100003 + 12)
     gen_kinds(gt, vocab, 3 if quick else 9)
@@ -597,8 +597,8 @@ def run_format(ctx, fmt, replay):
                    probe=dict(pos="error", cls=cls, quoted=quoted_at(fmt, "error")), salt=s,
                    msg=["plain", "LF", "plain"] if s % 2 else ["plain"])
     gen_trees(gt, trees[:: (10 if quick else 40)])
-    gen_big(gt, vocab, 40 if quick else 600, clean_of=None)
-    gen_big(gt, vocab, 40 if quick else 600, clean_of=known_feats)
+    gen_big(gt, vocab, 40 if quick else 1500, clean_of=None)
+    gen_big(gt, vocab, 40 if quick else 1500, clean_of=known_feats)
 
     allfound = []
     sigs = set()
